@@ -63,6 +63,24 @@ JCCNear(r) ==
                    AbsC(g.on0) <= 64 /\ AbsC(g.on1) <= 64 /\ AbsC(g.perp0) <= 64 /\ AbsC(g.perp1) <= 64 /\ AbsC(g.same) <= 64)
             /\ Clause(i, "C11.outer.order", o.segs[1].side > 0 /\ o.segs[2].side < 0)
 
+\* circle centred on the origin (radius R), segment on the line y = lvl from x = -far (hundreds of millions of units away)
+\* to x = xe: the crossings are (-h, lvl) and (h, lvl) with h^2 = R^2 - lvl^2 (h is given and verified), as far as they lie
+\* on the segment; a tangent line touches at (0, lvl)
+JSegFar(r) ==
+    LET o == r.out R == r.c[3] l == r.lvl h == r.h
+        want == IF l * l > R * R THEN {}
+                ELSE IF l * l = R * R THEN (IF r.xe >= 0 THEN {<<0, l>>} ELSE {})
+                ELSE {p \in {<<-h, l>>, <<h, l>>} : p[1] <= r.xe}
+        near(pq, p) == AbsC(pq[1] - p[1] * r.q) <= 2 /\ AbsC(pq[2] - p[2] * r.q) <= 2 IN
+    /\ Clause(i, "C11.segment.far.well_formed", r.c[1] = 0 /\ r.c[2] = 0 /\ (l * l >= R * R \/ h * h = R * R - l * l) /\ r.far > R)
+    /\ Clause(i, "C11.segment.panic", Sub(o))
+    /\ Sub(o) =>
+        /\ Clause(i, "C11.segment.finite", o.finite)
+        /\ (o.finite /\ IsPts(o.pts)) =>
+            /\ Clause(i, "C11.segment.count", Len(o.pts) = Cardinality(want))
+            /\ Clause(i, "C11.segment.on_both", \A j \in 1..Len(o.pts) : \E p \in want : near(o.pts[j], p))
+            /\ Clause(i, "C11.segment.complete", \A p \in want : \E j \in 1..Len(o.pts) : near(o.pts[j], p))
+
 JCC(r) ==
     LET o == r.out IN
     /\ Note("cc." \o PairClass(r.c0, r.c1))
@@ -202,6 +220,7 @@ Judge(r) ==
           [] r.op = "ccnear" -> JCCNear(r)
           [] r.op = "tan"   -> JTan(r)
           [] r.op = "seg"   -> JSeg(r)
+          [] r.op = "segfar" -> JSegFar(r)
           [] r.op = "curve" -> JCurve(r)
           [] r.op = "arc16" -> JArc16(r)
           [] r.op = "arcp"  -> JArcP(r)
